@@ -318,7 +318,10 @@ int main(int argc, char **argv)
             // that would act as its "a" (left of left hand side), nor another range
             if(!toks.empty() && k.text.find("...") != std::string::npos) {
                 const Tok &p = toks.back();
-                if(p.text.find("...") != std::string::npos || std::find(p.tags.begin(), p.tags.end(), "multiplier") != p.tags.end() || p.type == k.type) { --i; if(r.chance(0.3)) break; continue; }
+                bool p_mult = std::find(p.tags.begin(), p.tags.end(), "multiplier") != p.tags.end();
+                // (an array, repeated or not, hides its elements from a following range)
+                if(p.type == 'a' && p.text.find("...") == std::string::npos) { if(p_mult) count("syntax.range_behind_repeated_array"); else count("syntax.range_behind_array"); }
+                else if(p.text.find("...") != std::string::npos || p_mult || p.type == k.type) { --i; if(r.chance(0.3)) break; continue; }
             }
             nvals += k.exp.size();
             toks.push_back(k);
